@@ -8,7 +8,8 @@ from ..cfg import CFG
 from ..fdai import Unknown
 from ..loader import AnchorError, dotted, is_self_attr, parent, short, src, walk_no_nested
 from ..resolve import Resolver
-from ..rules import attr_writes, cfg_of, guard_facts, mentions_name, package_attr_writes, where
+from .mitomodel import table_entries
+from ..rules import attr_writes, cfg_of, guard_facts, guard_established, mentions_name, package_attr_writes, where
 from .c02 import C, M, Walk, accepted_classes
 
 FILES = [M, "operon_ai/core/agent.py"]
@@ -24,6 +25,16 @@ TABLES = ("SAFE_OPERATORS", "SAFE_COMPARISONS", "SAFE_BOOL_OPS", "SAFE_FUNCTIONS
 # entries whose cost is unbounded in the magnitude of an operand
 COSTLY = {("SAFE_OPERATORS", "ast.Pow"): "a ** b with a huge exponent (9**9**9)", ("SAFE_OPERATORS", "ast.Mult"): "sequence repetition ('a' * 10**11)",
           ("SAFE_OPERATORS", "ast.LShift"): "1 << 10**10", ("SAFE_FUNCTIONS", "'factorial'"): "factorial(10**8)"}
+
+
+def all_expr_classes():
+    out, todo = [], list(ast.expr.__subclasses__())
+    while todo:
+        c = todo.pop()
+        out.append(c)
+        todo.extend(c.__subclasses__())
+    # deprecated aliases (Num, Str, Bytes, NameConstant, Ellipsis) construct ast.Constant and are not node classes of their own
+    return sorted({c for c in out if c.__module__ in ("ast", "_ast") and not issubclass(c, ast.Constant) or c is ast.Constant}, key=lambda c: c.__name__)
 
 
 def minimal_instance(cls):
@@ -76,43 +87,44 @@ def run(p, led, tier):
     led.rule("C01-R6", "metabolize cannot raise: every may-raise statement on hostile input is inside the blanket handler, whose own body is total", 1)
     led.rule("C01-R7", "the length guard dominates every pathway call; only metabolize calls the pathway functions, only they call the walker", 4)
     led.rule("C01-R8", "the configured timeout has a control use; cost-unbounded table entries have a magnitude guard", 3)
-    acc = set(accepted_classes(walker))
+    acc = set(accepted_classes(W))
     led.extra["walker"] = walker.qual
     led.extra["accepted_node_classes"] = sorted(acc)
 
     # ---------------- table values (needed for the extcall allow-list)
     table_values = set()
+    tables = {}
     for tname in TABLES:
-        tab = mito.assigns.get(tname)
-        if not isinstance(tab, ast.Dict):
-            raise AnchorError(f"Mitochondria.{tname} is not a dict literal in the class body")
-        for k, v in zip(tab.keys, tab.values):
-            key = f"Mitochondria.{tname}[{src(k)}]"
-            d = dotted(v)
+        tables[tname] = table_entries(p, mito, tname)
+        for e in tables[tname]:
+            key = f"Mitochondria.{tname}[{e.key_text}]"
+            d = e.dotted
+            loc = f"{M}:{e.line}"
             verdict = None
-            if isinstance(v, ast.Constant):
+            if e.kind == "const":
                 verdict = "constant"
-            elif d and d.startswith("math.") and hasattr(__import__("math"), d[5:]):
+            elif e.kind == "ext" and d and d.startswith("math.") and hasattr(__import__("math"), d[5:]):
                 verdict = f"{d} (pure, C-implemented)"
                 table_values.add(d)
-            elif d and d.startswith("operator.") and hasattr(__import__("operator"), d[9:]) and d[9:] not in ("attrgetter", "itemgetter", "methodcaller", "setitem", "delitem"):
+            elif e.kind == "ext" and d and d.startswith("operator.") and hasattr(__import__("operator"), d[9:]) and d[9:] not in ("attrgetter", "itemgetter", "methodcaller", "setitem", "delitem"):
                 verdict = f"{d}"
                 table_values.add(d)
-            elif d and "." not in d and d in PURE_BUILTINS and hasattr(builtins, d):
+            elif e.kind == "ext" and d and "." not in d and d in PURE_BUILTINS and hasattr(builtins, d) and not isinstance(e.node, (ast.FunctionDef, ast.AsyncFunctionDef)):
                 verdict = f"builtin {d} (pure)"
                 table_values.add(d)
-            elif isinstance(v, ast.Lambda):
-                why = _lambda_safe(v)
+            elif e.kind == "lambda":
+                why = _lambda_safe(e.node)
                 if why is None:
                     verdict = "lambda over its own parameters"
                 else:
-                    led.fail("C01-R4", key, where(walker, v), f"lambda entry is not confined: {why}")
+                    led.fail("C01-R4", key, loc, f"lambda entry is not confined: {why}")
                     continue
             if verdict:
-                led.ok("C01-R4", key, f"{M}:{v.lineno}", verdict, nontrivial=False)
+                led.ok("C01-R4", key, loc, verdict, nontrivial=False)
             else:
-                led.fail("C01-R4", key, f"{M}:{v.lineno}", f"`{short(v)}` is not a pure builtin, math.*, operator.*, constant or confined lambda: expressions can reach it by name",
-                         witness=f"metabolize(\"{src(k).strip(chr(39))}(…)\") invokes it")
+                shown = short(e.node) if isinstance(e.node, ast.expr) else (d or repr(e.value))
+                led.fail("C01-R4", key, loc, f"`{shown}` is not a pure builtin, math.*, operator.*, constant or confined lambda: expressions can reach it by name",
+                         witness=f"metabolize(\"{e.key_text.strip(chr(39))}(…)\") invokes it")
     n_w = 0
     for tname in TABLES:
         for fi, kind, node in package_attr_writes(p, tname, None):
@@ -126,14 +138,6 @@ def run(p, led, tier):
     led.ok("C01-R4", "package ▸ writers of the allow-list tables", "operon_ai/", f"{len(p.all_funcs)} functions scanned; {n_w} writer(s)")
 
     # ---------------- R1 every ast.expr subclass
-    def all_expr_classes():
-        out, todo = [], list(ast.expr.__subclasses__())
-        while todo:
-            c = todo.pop()
-            out.append(c)
-            todo.extend(c.__subclasses__())
-        # deprecated aliases (Num, Str, Bytes, NameConstant, Ellipsis) construct ast.Constant and are not node classes of their own
-        return sorted({c for c in out if c.__module__ in ("ast", "_ast") and not issubclass(c, ast.Constant) or c is ast.Constant}, key=lambda c: c.__name__)
     bad_acc = acc - ALLOWED_NODES
     for cname in sorted(bad_acc):
         led.fail("C01-R1", f"{walker.qual} ▸ accepts ast.{cname}", where(walker, walker.node), f"the walker has a branch for ast.{cname}, which is outside the allowed subset"
@@ -175,14 +179,14 @@ def run(p, led, tier):
     load = ast.Load()
     rs = W.paths(ast.Name(Unknown("ident"), load))
     key = f"{walker.qual} ▸ Name lookup"
-    bad = [r for r in rs if r["kind"] == "ok" and not any("SAFE_FUNCTIONS" in d[0] and d[1] for d in r["decisions"])]
+    bad = [r for r in rs if r["kind"] == "ok" and not any(_found_in_table(d, "ident") for d in r["decisions"])]
     if bad or not any(r["kind"] == "raise" for r in rs):
         led.fail("C01-R3", key, where(walker, walker.node), "an identifier is resolved without having been found in the allow-list (or unknown identifiers are not refused)")
     else:
         led.ok("C01-R3", key, where(walker, walker.node), f"{len(rs)} path(s): a value only on the path where `ident in SAFE_FUNCTIONS` held; otherwise ValueError")
     rs = W.paths(ast.Call(ast.Name(Unknown("fname"), load), [C(Unknown("x"))], []))
     key = f"{walker.qual} ▸ Call by name"
-    bad = [r for r in rs if r["kind"] == "ok" and not any("SAFE_FUNCTIONS" in d[0] and d[1] for d in r["decisions"])]
+    bad = [r for r in rs if r["kind"] == "ok" and not any(_found_in_table(d, "fname") for d in r["decisions"])]
     if bad or not any(r["kind"] == "raise" for r in rs):
         led.fail("C01-R3", key, where(walker, walker.node), "a function is called without its name having been found in the allow-list")
     else:
@@ -259,10 +263,9 @@ def run(p, led, tier):
             if caller is not met:
                 led.fail("C01-R7", key, where(caller, call), f"{pf.qual} is entered from outside metabolize, bypassing the length guard and the blanket handler")
                 continue
-            facts = guard_facts(cfgm, cfgm.node_of(call))
-            okg = [f for f in facts if isinstance(f[0], ast.Compare) and "len(" in src(f[0].left) and "MAX_EXPRESSION_LENGTH" in src(f[0]) and isinstance(f[0].ops[0], (ast.Gt, ast.GtE)) and f[1] is False]
+            okg = guard_established(res, met, cfgm, cfgm.node_of(call), _length_fact, led)
             if okg:
-                led.ok("C01-R7", key, where(caller, call), f"dominated by `{short(okg[0][0])}` = False")
+                led.ok("C01-R7", key, where(caller, call), f"dominated by {okg}")
             else:
                 led.fail("C01-R7", key, where(caller, call), "pathway entered without the expression-length guard having passed")
     for caller, call in res.callers_of(walker):
@@ -294,12 +297,14 @@ def run(p, led, tier):
         led.fail("C01-R8", key, where(init, init.node), f"`self.{tattr}` is stored and only used to compute an efficiency score: nothing bounds evaluation time",
                  witness="metabolize('9**9**9') never returns")
     for (tname, kk), why in COSTLY.items():
-        tab = mito.assigns.get(tname)
-        for k, v in zip(tab.keys, tab.values):
-            if src(k) == kk:
+        for e in tables[tname]:
+            if e.key_text == kk:
+                v = e.node
                 key = f"Mitochondria.{tname}[{kk}] ▸ magnitude guard"
                 guarded = isinstance(v, ast.Lambda) and any(isinstance(x, ast.Compare) for x in ast.walk(v))
-                if not guarded:
+                if not guarded and isinstance(v, (ast.FunctionDef, ast.AsyncFunctionDef)):
+                    guarded = any(isinstance(x, ast.Compare) for x in ast.walk(v))
+                if not guarded and isinstance(v, ast.expr):
                     d = dotted(v)
                     if d and "." not in d:
                         f = next((fn for fn in p.functions.get(d, []) if fn.module.rel == M), None) or mito.methods.get(d)
@@ -307,13 +312,37 @@ def run(p, led, tier):
                     if is_self_attr(v) or (d and d.startswith("_")):
                         f = mito.methods.get((d or "").split(".")[-1]) or next((fn for fn in p.functions.get((d or "").split(".")[-1], [])), None)
                         guarded = f is not None and any(isinstance(x, ast.Compare) for x in ast.walk(f.node))
+                loc = f"{M}:{e.line}"
+                shown = short(v) if isinstance(v, ast.expr) else (e.dotted or repr(e.value))
                 if guarded:
-                    led.ok("C01-R8", key, f"{M}:{v.lineno}", "entry is a wrapper that tests its operands")
+                    led.ok("C01-R8", key, loc, "entry is a wrapper that tests its operands")
                 else:
-                    led.fail("C01-R8", key, f"{M}:{v.lineno}", f"`{short(v)}` has cost unbounded in operand magnitude and no guard: {why}", witness=why)
+                    led.fail("C01-R8", key, loc, f"`{shown}` has cost unbounded in operand magnitude and no guard: {why}", witness=why)
 
 
 # ----------------------------------------------------------------------
+def _found_in_table(d, sym):
+    """decision `d` says the symbolic identifier was found as a key of a dict-valued table (positive truth of the
+    membership, whichever surface form the test has: `in`, `not in`, `.get(..) is None`)"""
+    return isinstance(d[2], str) and d[2].startswith(f"({sym} in {{") and d[3] is True
+
+
+def _length_fact(fi, atom, pol):
+    """the fact says len(<input>) does not exceed the configured maximum"""
+    if not (isinstance(atom, ast.Compare) and len(atom.ops) == 1):
+        return False
+    l, op, r = atom.left, atom.ops[0], atom.comparators[0]
+    def is_len(e):
+        return isinstance(e, ast.Call) and isinstance(e.func, ast.Name) and e.func.id == "len"
+    def is_max(e):
+        return "MAX_EXPRESSION_LENGTH" in src(e) or "max_expression_length" in src(e).lower()
+    if is_len(l) and is_max(r):
+        return (isinstance(op, (ast.Gt, ast.GtE)) and pol is False) or (isinstance(op, (ast.Lt, ast.LtE)) and pol is True)
+    if is_max(l) and is_len(r):
+        return (isinstance(op, (ast.Lt, ast.LtE)) and pol is False) or (isinstance(op, (ast.Gt, ast.GtE)) and pol is True)
+    return False
+
+
 def _lambda_safe(lam):
     params = {a.arg for a in lam.args.args + lam.args.posonlyargs + lam.args.kwonlyargs}
     for n in ast.walk(lam.body):
